@@ -206,6 +206,9 @@ func c06run(c *fw.Ctx, idx int) {
 	src := cs.path.Src(cs.base)
 	c.Begin(idx, map[string]interface{}{"root": cs.rootKind, "access": src, "corruption": cs.how})
 	defer c.End()
+	if idx == 0 {
+		c06ambiguous(c)
+	}
 	res := data.Resolve(reflect.ValueOf(cs.root), cs.path)
 	if res.Out == data.OUnspecified {
 		c.Count("discarded_unspecified:"+res.Why, 1)
@@ -265,6 +268,46 @@ func c06run(c *fw.Ctx, idx int) {
 	}
 	if idx%1999 == 0 {
 		c.Sample(map[string]interface{}{"root": cs.rootKind, "access": src, "reference": res.Out.String() + " " + res.Why, "rendered": out.Out, "error": out.ErrStr()})
+	}
+}
+
+// A name promoted from two embedded structs at the same depth is ambiguous under Go's selector rules: it is no field
+// (reflect.FieldByName reports !ok), so reaching for it is a missing-field error, while every unambiguous member of the
+// same struct is reached as usual. The generated data graphs have no such struct; this directed probe runs with case 0.
+type C06AmbA struct{ Name, OnlyA string }
+type C06AmbB struct{ Name string }
+type C06Amb struct {
+	C06AmbA
+	C06AmbB
+	Title string
+}
+type C06AmbP struct {
+	C06AmbA
+	*C06AmbB
+}
+
+func c06ambiguous(c *fw.Ctx) {
+	amb := C06Amb{C06AmbA{"left", "onlyA"}, C06AmbB{"right"}, "t"}
+	ambp := C06AmbP{C06AmbA{"left", "onlyA"}, &C06AmbB{"right"}}
+	for _, round := range []int{1, 2} { // twice: the second round is served from jet's per-type field cache
+		for _, e := range []struct{ src, want string }{
+			{`amb.Name`, ""}, {`amb["Name"]`, ""}, {`pamb.Name`, ""}, {`list[0].Name`, ""}, {`ambp.Name`, ""}, {`ambp["Name"]`, ""},
+			{`amb.OnlyA`, "onlyA"}, {`amb.Title`, "t"}, {`amb.C06AmbA.Name`, "left"}, {`amb.C06AmbB.Name`, "right"}, {`pamb["OnlyA"]`, "onlyA"},
+			{`ambp.OnlyA`, "onlyA"}, {`ambp.C06AmbB.Name`, "right"},
+		} {
+			vars := jet.VarMap{}
+			vars.Set("amb", amb).Set("pamb", &amb).Set("list", []interface{}{amb}).Set("ambp", ambp)
+			out := jx.Run(map[string]string{"/t.jet": "{{ " + e.src + " }}"}, "/t.jet", vars, nil, jx.NoEscape)
+			c.Count("ambiguous_probe_accesses", 1)
+			switch {
+			case out.Panic != nil || out.ParseErr != nil:
+				c.Violation("c06:panic:ambiguous-promoted-name", "", fmt.Sprintf("round %d: %s: %s", round, e.src, out))
+			case e.want == "" && out.Err == nil:
+				c.Violation("c06:silent-failure:ambiguous-promoted-name", "", fmt.Sprintf("round %d: %s rendered %q without error; the name is promoted from two embedded structs at one depth, so it is no field", round, e.src, out.Out))
+			case e.want != "" && (out.Err != nil || out.Out != e.want):
+				c.Violation("c06:wrong-value:beside-ambiguous-name", "", fmt.Sprintf("round %d: %s: want %q, got %s", round, e.src, e.want, out))
+			}
+		}
 	}
 }
 
